@@ -20,6 +20,10 @@
      rejects such a program);
    * [return e] / [e?] leave the function: outcome [Ret v], turned into the function's value by [eval_fn] and by
      [EScope] (the boundary of an inlined callee);
+   * the evaluator never inspects a symbolic boolean: where the machine branches (overflow checks, [if], [&&],
+     [assert!], [checked_add]) it builds a node [Br c a b] of a decision [tree]; [interp] reads [Br c a b] as
+     "if c then a else b".  (So evaluating a function on symbolic arguments computes to a finite tree whose
+     conditions are comparisons of the arguments, which is what the proofs case-split on.)
    * [Stuck] = ill-typed or outside the fragment (unbound variable, operands of different types, ...): rustc
      would have rejected the text or the translator produced nonsense; theorems show it does not happen. *)
 From Coq Require Import List NArith ZArith String Bool Lia.
@@ -55,6 +59,26 @@ Inductive panic := POverflow | PDivZero | PAssert | PUnwrap.
 Inductive outcome := Val (v : value) | Ret (v : value) | Panic (p : panic) | Stuck.
 Inductive mode := Debug | Release.
 
+(* the result of an evaluation: a decision tree over boolean conditions on the arguments *)
+Inductive tree := Leaf (o : outcome) | Br (c : bool) (a b : tree).
+Fixpoint interp (t : tree) : outcome :=
+  match t with Leaf o => o | Br c a b => if c then interp a else interp b end.
+Definition val (v : value) : tree := Leaf (Val v).
+Definition stuck : tree := Leaf Stuck.
+Fixpoint tbind (t : tree) (k : value -> tree) : tree :=
+  match t with
+  | Leaf (Val v) => k v
+  | Leaf o => Leaf o
+  | Br c a b => Br c (tbind a k) (tbind b k)
+  end.
+(* the boundary of a function body: [return v] becomes the value v *)
+Fixpoint scope (t : tree) : tree :=
+  match t with
+  | Leaf (Ret v) => Leaf (Val v)
+  | Leaf o => Leaf o
+  | Br c a b => Br c (scope a) (scope b)
+  end.
+
 (* ------------------------------------------------------------------ syntax *)
 Inductive unop := UNot | UNeg.
 Inductive binop := BAdd | BSub | BMul | BDiv | BRem | BAnd | BOr | BXor | BShl | BShr
@@ -87,7 +111,9 @@ Inductive rexpr :=
 | ETry (e : rexpr).                              (* e? *)
 
 Inductive pty := PInt (t : ity) | PBool | PEnum.
-Record rfun := { params : list (string * pty); body : rexpr }.
+(* ret: the integer type of the function's result when it has one (T itself, or the T of Option<T> / Result<T, _>):
+   an untyped literal in result position (`Ok(0)`) has that type *)
+Record rfun := { params : list (string * pty); ret : option ity; body : rexpr }.
 
 (* ------------------------------------------------------------------ machine arithmetic *)
 Definition sem (t : ity) (n : N) : Z :=
@@ -97,36 +123,36 @@ Definition in_range (t : ity) (z : Z) : bool :=
   if signed t then ((- Z.of_N (half t) <=? z) && (z <? Z.of_N (half t)))%Z
   else ((0 <=? z) && (z <? Z.of_N (modulus t)))%Z.
 
-(* a literal meeting the type t *)
+(* a literal meeting the type t (closed computation in Z) *)
 Definition lit_to (t : ity) (z : Z) : option N :=
-  if ((- Z.of_N (half t) <=? z) && (z <? Z.of_N (modulus t)))%Z then Some (rep t z) else None.
+  if ((- Z.of_N (half t) <=? z) && (z <? Z.of_N (modulus t)))%Z then Some (Z.to_N (z mod Z.of_N (modulus t))) else None.
 
-Definition ovf (m : mode) (t : ity) (wrapped : N) : outcome :=
-  match m with Debug => Panic POverflow | Release => Val (VInt t wrapped) end.
+Definition ovf (m : mode) (t : ity) (wrapped : N) : tree :=
+  match m with Debug => Leaf (Panic POverflow) | Release => val (VInt t wrapped) end.
 
 (* unsigned types: everything in N, in the shape the hand models use *)
-Definition arith_u (m : mode) (t : ity) (o : binop) (a b : N) : outcome :=
+Definition arith_u (m : mode) (t : ity) (o : binop) (a b : N) : tree :=
   match o with
-  | BAdd => if a + b <? modulus t then Val (VInt t (a + b)) else ovf m t ((a + b) mod modulus t)
-  | BSub => if b <=? a then Val (VInt t (a - b)) else ovf m t (a + modulus t - b)
-  | BMul => if a * b <? modulus t then Val (VInt t (a * b)) else ovf m t ((a * b) mod modulus t)
-  | BDiv => if b =? 0 then Panic PDivZero else Val (VInt t (a / b))
-  | BRem => if b =? 0 then Panic PDivZero else Val (VInt t (a mod b))
-  | _ => Stuck
+  | BAdd => Br (a + b <? modulus t) (val (VInt t (a + b))) (ovf m t ((a + b) mod modulus t))
+  | BSub => Br (b <=? a) (val (VInt t (a - b))) (ovf m t (a + modulus t - b))
+  | BMul => Br (a * b <? modulus t) (val (VInt t (a * b))) (ovf m t ((a * b) mod modulus t))
+  | BDiv => Br (b =? 0) (Leaf (Panic PDivZero)) (val (VInt t (a / b)))
+  | BRem => Br (b =? 0) (Leaf (Panic PDivZero)) (val (VInt t (a mod b)))
+  | _ => stuck
   end.
 
 (* signed types: through the signed reading *)
-Definition arith_s (m : mode) (t : ity) (o : binop) (a b : N) : outcome :=
+Definition arith_s (m : mode) (t : ity) (o : binop) (a b : N) : tree :=
   let x := sem t a in let y := sem t b in
   match o with
-  | BAdd => if in_range t (x + y) then Val (VInt t (rep t (x + y))) else ovf m t (rep t (x + y))
-  | BSub => if in_range t (x - y) then Val (VInt t (rep t (x - y))) else ovf m t (rep t (x - y))
-  | BMul => if in_range t (x * y) then Val (VInt t (rep t (x * y))) else ovf m t (rep t (x * y))
-  | BDiv => if b =? 0 then Panic PDivZero
-            else if in_range t (Z.quot x y) then Val (VInt t (rep t (Z.quot x y))) else Panic POverflow
-  | BRem => if b =? 0 then Panic PDivZero
-            else if in_range t (Z.quot x y) then Val (VInt t (rep t (Z.rem x y))) else Panic POverflow
-  | _ => Stuck
+  | BAdd => Br (in_range t (x + y)) (val (VInt t (rep t (x + y)))) (ovf m t (rep t (x + y)))
+  | BSub => Br (in_range t (x - y)) (val (VInt t (rep t (x - y)))) (ovf m t (rep t (x - y)))
+  | BMul => Br (in_range t (x * y)) (val (VInt t (rep t (x * y)))) (ovf m t (rep t (x * y)))
+  | BDiv => Br (b =? 0) (Leaf (Panic PDivZero))
+               (Br (in_range t (Z.quot x y)) (val (VInt t (rep t (Z.quot x y)))) (Leaf (Panic POverflow)))
+  | BRem => Br (b =? 0) (Leaf (Panic PDivZero))
+               (Br (in_range t (Z.quot x y)) (val (VInt t (rep t (Z.rem x y)))) (Leaf (Panic POverflow)))
+  | _ => stuck
   end.
 
 Definition lt_int (t : ity) (a b : N) : bool :=
@@ -137,44 +163,44 @@ Definition le_int (t : ity) (a b : N) : bool :=
 Definition shr_int (t : ity) (a s : N) : N :=
   if signed t then rep t (Z.shiftr (sem t a) (Z.of_N s)) else N.shiftr a s.
 
-Definition int_bin (m : mode) (t : ity) (o : binop) (a b : N) : outcome :=
+Definition int_bin (m : mode) (t : ity) (o : binop) (a b : N) : tree :=
   match o with
   | BAdd | BSub | BMul | BDiv | BRem => if signed t then arith_s m t o a b else arith_u m t o a b
-  | BAnd => Val (VInt t (N.land a b))
-  | BOr => Val (VInt t (N.lor a b))
-  | BXor => Val (VInt t (N.lxor a b))
-  | BEq => Val (VBool (a =? b))
-  | BNe => Val (VBool (negb (a =? b)))
-  | BLt => Val (VBool (lt_int t a b))
-  | BLe => Val (VBool (le_int t a b))
-  | BGt => Val (VBool (lt_int t b a))
-  | BGe => Val (VBool (le_int t b a))
-  | _ => Stuck
+  | BAnd => val (VInt t (N.land a b))
+  | BOr => val (VInt t (N.lor a b))
+  | BXor => val (VInt t (N.lxor a b))
+  | BEq => val (VBool (a =? b))
+  | BNe => val (VBool (negb (a =? b)))
+  | BLt => val (VBool (lt_int t a b))
+  | BLe => val (VBool (le_int t a b))
+  | BGt => val (VBool (lt_int t b a))
+  | BGe => val (VBool (le_int t b a))
+  | _ => stuck
   end.
 
 (* x << s, x >> s : the amount may have any integer type *)
-Definition shift (m : mode) (t : ity) (o : binop) (a s : N) : outcome :=
+Definition shift (m : mode) (t : ity) (o : binop) (a s : N) : tree :=
   let go (k : N) := match o with
-                    | BShl => Val (VInt t (N.shiftl a k mod modulus t))
-                    | BShr => Val (VInt t (shr_int t a k))
-                    | _ => Stuck
+                    | BShl => val (VInt t (N.shiftl a k mod modulus t))
+                    | BShr => val (VInt t (shr_int t a k))
+                    | _ => stuck
                     end in
-  if s <? width t then go s
-  else match m with Debug => Panic POverflow | Release => go (s mod width t) end.
+  Br (s <? width t) (go s)
+     (match m with Debug => Leaf (Panic POverflow) | Release => go (s mod width t) end).
 
-(* both operands are literals: exact integers, the type comes later *)
-Definition lit_bin (o : binop) (x y : Z) : outcome :=
+(* both operands are literals: exact integers, the type comes later (closed computation in Z) *)
+Definition lit_bin (o : binop) (x y : Z) : tree :=
   match o with
-  | BAdd => Val (VLit (x + y)) | BSub => Val (VLit (x - y)) | BMul => Val (VLit (x * y))
-  | BDiv => if (y =? 0)%Z then Panic PDivZero else Val (VLit (Z.quot x y))
-  | BRem => if (y =? 0)%Z then Panic PDivZero else Val (VLit (Z.rem x y))
-  | BAnd => Val (VLit (Z.land x y)) | BOr => Val (VLit (Z.lor x y)) | BXor => Val (VLit (Z.lxor x y))
-  | BShl => if (0 <=? y)%Z then Val (VLit (Z.shiftl x y)) else Stuck
-  | BShr => if (0 <=? y)%Z then Val (VLit (Z.shiftr x y)) else Stuck
-  | BEq => Val (VBool (x =? y)%Z) | BNe => Val (VBool (negb (x =? y)%Z))
-  | BLt => Val (VBool (x <? y)%Z) | BLe => Val (VBool (x <=? y)%Z)
-  | BGt => Val (VBool (y <? x)%Z) | BGe => Val (VBool (y <=? x)%Z)
-  | _ => Stuck
+  | BAdd => val (VLit (x + y)) | BSub => val (VLit (x - y)) | BMul => val (VLit (x * y))
+  | BDiv => if (y =? 0)%Z then Leaf (Panic PDivZero) else val (VLit (Z.quot x y))
+  | BRem => if (y =? 0)%Z then Leaf (Panic PDivZero) else val (VLit (Z.rem x y))
+  | BAnd => val (VLit (Z.land x y)) | BOr => val (VLit (Z.lor x y)) | BXor => val (VLit (Z.lxor x y))
+  | BShl => if (0 <=? y)%Z then val (VLit (Z.shiftl x y)) else stuck
+  | BShr => if (0 <=? y)%Z then val (VLit (Z.shiftr x y)) else stuck
+  | BEq => val (VBool (x =? y)%Z) | BNe => val (VBool (negb (x =? y)%Z))
+  | BLt => val (VBool (x <? y)%Z) | BLe => val (VBool (x <=? y)%Z)
+  | BGt => val (VBool (y <? x)%Z) | BGe => val (VBool (y <=? x)%Z)
+  | _ => stuck
   end.
 
 Definition is_shift (o : binop) : bool := match o with BShl | BShr => true | _ => false end.
@@ -186,98 +212,102 @@ Definition shift_amount (v : value) : option N :=
   | _ => None
   end.
 
+Definition enum_eqb (a b : string) : bool := String.eqb a b.
+
 (* strict binary operators (everything except && and ||) *)
-Definition eval_bin (m : mode) (o : binop) (va vb : value) : outcome :=
+Definition eval_bin (m : mode) (o : binop) (va vb : value) : tree :=
   if is_shift o then
     match va, shift_amount vb with
     | VInt t a, Some s => shift m t o a s
     | VLit x, Some s => lit_bin o x (Z.of_N s)
-    | _, _ => Stuck
+    | _, _ => stuck
     end
   else
     match va, vb with
-    | VInt t a, VInt t' b => if ity_eqb t t' then int_bin m t o a b else Stuck
-    | VInt t a, VLit z => match lit_to t z with Some b => int_bin m t o a b | None => Stuck end
-    | VLit z, VInt t b => match lit_to t z with Some a => int_bin m t o a b | None => Stuck end
+    | VInt t a, VInt t' b => if ity_eqb t t' then int_bin m t o a b else stuck
+    | VInt t a, VLit z => match lit_to t z with Some b => int_bin m t o a b | None => stuck end
+    | VLit z, VInt t b => match lit_to t z with Some a => int_bin m t o a b | None => stuck end
     | VLit x, VLit y => lit_bin o x y
     | VBool a, VBool b =>
         match o with
-        | BEq => Val (VBool (Bool.eqb a b)) | BNe => Val (VBool (negb (Bool.eqb a b)))
-        | BAnd => Val (VBool (a && b)) | BOr => Val (VBool (a || b)) | BXor => Val (VBool (xorb a b))
-        | _ => Stuck
+        | BEq => val (VBool (Bool.eqb a b)) | BNe => val (VBool (negb (Bool.eqb a b)))
+        | BAnd => val (VBool (a && b)) | BOr => val (VBool (a || b)) | BXor => val (VBool (xorb a b))
+        | _ => stuck
         end
     | VEnum a, VEnum b =>
         match o with
-        | BEq => Val (VBool (String.eqb a b)) | BNe => Val (VBool (negb (String.eqb a b)))
-        | _ => Stuck
+        | BEq => val (VBool (enum_eqb a b)) | BNe => val (VBool (negb (enum_eqb a b)))
+        | _ => stuck
         end
-    | _, _ => Stuck
+    | _, _ => stuck
     end.
 
-Definition eval_un (m : mode) (o : unop) (v : value) : outcome :=
+Definition eval_un (m : mode) (o : unop) (v : value) : tree :=
   match o, v with
-  | UNot, VInt t a => Val (VInt t (N.lnot a (width t)))
-  | UNot, VLit z => Val (VLit (Z.lnot z))
-  | UNot, VBool b => Val (VBool (negb b))
-  | UNeg, VLit z => Val (VLit (- z))
+  | UNot, VInt t a => val (VInt t (N.lnot a (width t)))
+  | UNot, VLit z => val (VLit (Z.lnot z))
+  | UNot, VBool b => val (VBool (negb b))
+  | UNeg, VLit z => val (VLit (- z))
   | UNeg, VInt t a =>
-      if signed t then
-        (if a =? half t then ovf m t a else Val (VInt t (rep t (- sem t a))))
-      else Stuck
-  | _, _ => Stuck
+      if signed t then Br (a =? half t) (ovf m t a) (val (VInt t (rep t (- sem t a))))
+      else stuck
+  | _, _ => stuck
   end.
 
+(* s is at most as wide as t (closed computation on the types) *)
+Definition fits (s t : ity) : bool := match N.compare (modulus s) (modulus t) with Gt => false | _ => true end.
+
 (* e as t *)
-Definition cast (v : value) (t : ity) : outcome :=
+Definition cast (v : value) (t : ity) : tree :=
   match v with
   | VInt s n =>
-      if signed s then Val (VInt t (rep t (sem s n)))
-      else if modulus s <=? modulus t then Val (VInt t n)
-      else Val (VInt t (n mod modulus t))
-  | VLit z => Val (VInt t (rep t z))
-  | VBool b => Val (VInt t (if b then 1 else 0))
-  | _ => Stuck
+      if signed s then val (VInt t (rep t (sem s n)))
+      else if fits s t then val (VInt t n)
+      else val (VInt t (n mod modulus t))
+  | VLit z => val (VInt t (Z.to_N (z mod Z.of_N (modulus t))))
+  | VBool b => val (VInt t (if b then 1 else 0))
+  | _ => stuck
   end.
 
 (* a value meeting a type annotation (let x: T = .., const X: T = ..) *)
-Definition ascribe (t : ity) (v : value) : outcome :=
+Definition ascribe (t : ity) (v : value) : tree :=
   match v with
-  | VInt s n => if ity_eqb s t then Val v else Stuck
-  | VLit z => match lit_to t z with Some n => Val (VInt t n) | None => Stuck end
-  | _ => Stuck
+  | VInt s n => if ity_eqb s t then val v else stuck
+  | VLit z => match lit_to t z with Some n => val (VInt t n) | None => stuck end
+  | _ => stuck
   end.
 
-Definition meth1_int (m : mode) (t : ity) (f : meth1) (a b : N) : outcome :=
-  if signed t then Stuck      (* not needed for the translated functions *)
+Definition meth1_int (m : mode) (t : ity) (f : meth1) (a b : N) : tree :=
+  if signed t then stuck      (* not needed for the translated functions *)
   else match f with
-  | MWrappingAdd => Val (VInt t ((a + b) mod modulus t))
-  | MWrappingSub => Val (VInt t (if b <=? a then a - b else a + modulus t - b))
-  | MWrappingMul => Val (VInt t ((a * b) mod modulus t))
-  | MCheckedAdd => Val (if a + b <? modulus t then VSome (VInt t (a + b)) else VNone)
-  | MCheckedSub => Val (if b <=? a then VSome (VInt t (a - b)) else VNone)
-  | MCheckedMul => Val (if a * b <? modulus t then VSome (VInt t (a * b)) else VNone)
-  | MSaturatingAdd => Val (VInt t (if a + b <? modulus t then a + b else modulus t - 1))
-  | MSaturatingSub => Val (VInt t (a - b))        (* N subtraction truncates at 0 *)
-  | MMin => Val (VInt t (N.min a b))
-  | MMax => Val (VInt t (N.max a b))
+  | MWrappingAdd => val (VInt t ((a + b) mod modulus t))
+  | MWrappingSub => val (VInt t (if b <=? a then a - b else a + modulus t - b))
+  | MWrappingMul => val (VInt t ((a * b) mod modulus t))
+  | MCheckedAdd => Br (a + b <? modulus t) (val (VSome (VInt t (a + b)))) (val VNone)
+  | MCheckedSub => Br (b <=? a) (val (VSome (VInt t (a - b)))) (val VNone)
+  | MCheckedMul => Br (a * b <? modulus t) (val (VSome (VInt t (a * b)))) (val VNone)
+  | MSaturatingAdd => val (VInt t (N.min (a + b) (modulus t - 1)))
+  | MSaturatingSub => val (VInt t (a - b))        (* N subtraction truncates at 0 *)
+  | MMin => val (VInt t (N.min a b))
+  | MMax => val (VInt t (N.max a b))
   end.
 
-Definition eval_meth1 (m : mode) (f : meth1) (va vb : value) : outcome :=
+Definition eval_meth1 (m : mode) (f : meth1) (va vb : value) : tree :=
   match va, vb with
-  | VInt t a, VInt t' b => if ity_eqb t t' then meth1_int m t f a b else Stuck
-  | VInt t a, VLit z => match lit_to t z with Some b => meth1_int m t f a b | None => Stuck end
-  | _, _ => Stuck          (* a method call on a bare literal does not type-check in Rust either *)
+  | VInt t a, VInt t' b => if ity_eqb t t' then meth1_int m t f a b else stuck
+  | VInt t a, VLit z => match lit_to t z with Some b => meth1_int m t f a b | None => stuck end
+  | _, _ => stuck          (* a method call on a bare literal does not type-check in Rust either *)
   end.
 
-Definition eval_meth0 (f : meth0) (v : value) : outcome :=
+Definition eval_meth0 (f : meth0) (v : value) : tree :=
   match f, v with
-  | MIsSome, VSome _ => Val (VBool true) | MIsSome, VNone => Val (VBool false)
-  | MIsNone, VSome _ => Val (VBool false) | MIsNone, VNone => Val (VBool true)
-  | MIsOk, VOk _ => Val (VBool true) | MIsOk, VErr _ => Val (VBool false)
-  | MIsErr, VOk _ => Val (VBool false) | MIsErr, VErr _ => Val (VBool true)
-  | MUnwrap, VSome x => Val x | MUnwrap, VOk x => Val x
-  | MUnwrap, VNone => Panic PUnwrap | MUnwrap, VErr _ => Panic PUnwrap
-  | _, _ => Stuck
+  | MIsSome, VSome _ => val (VBool true) | MIsSome, VNone => val (VBool false)
+  | MIsNone, VSome _ => val (VBool false) | MIsNone, VNone => val (VBool true)
+  | MIsOk, VOk _ => val (VBool true) | MIsOk, VErr _ => val (VBool false)
+  | MIsErr, VOk _ => val (VBool false) | MIsErr, VErr _ => val (VBool true)
+  | MUnwrap, VSome x => val x | MUnwrap, VOk x => val x
+  | MUnwrap, VNone => Leaf (Panic PUnwrap) | MUnwrap, VErr _ => Leaf (Panic PUnwrap)
+  | _, _ => stuck
   end.
 
 (* ------------------------------------------------------------------ evaluation *)
@@ -288,80 +318,65 @@ Fixpoint lookup (x : string) (r : env) : option value :=
   | (y, v) :: r' => if String.eqb x y then Some v else lookup x r'
   end.
 
-Definition bind (o : outcome) (k : value -> outcome) : outcome :=
-  match o with Val v => k v | other => other end.
+(* branch on a boolean VALUE without inspecting it *)
+Definition on_bool (v : value) (a b : tree) : tree :=
+  match v with VBool c => Br c a b | _ => stuck end.
+Definition want_bool (v : value) : tree := match v with VBool _ => val v | _ => stuck end.
 
-Fixpoint eval (m : mode) (r : env) (e : rexpr) {struct e} : outcome :=
+Fixpoint eval (m : mode) (r : env) (e : rexpr) {struct e} : tree :=
   match e with
-  | EVar x => match lookup x r with Some v => Val v | None => Stuck end
-  | ELit z => Val (VLit z)
-  | ELitT t z => match lit_to t z with Some n => Val (VInt t n) | None => Stuck end
-  | EBool b => Val (VBool b)
-  | EUnit => Val VUnit
-  | EEnum p => Val (VEnum p)
-  | EConst _ t e1 => bind (eval m r e1) (ascribe t)
-  | EUn o e1 => bind (eval m r e1) (eval_un m o)
+  | EVar x => match lookup x r with Some v => val v | None => stuck end
+  | ELit z => val (VLit z)
+  | ELitT t z => match lit_to t z with Some n => val (VInt t n) | None => stuck end
+  | EBool b => val (VBool b)
+  | EUnit => val VUnit
+  | EEnum p => val (VEnum p)
+  | EConst _ t e1 => tbind (eval m r e1) (ascribe t)
+  | EUn o e1 => tbind (eval m r e1) (eval_un m o)
   | EBin BLAnd a b =>
-      bind (eval m r a) (fun va => match va with
-                                   | VBool true => bind (eval m r b) (fun vb => match vb with VBool _ => Val vb | _ => Stuck end)
-                                   | VBool false => Val (VBool false)
-                                   | _ => Stuck
-                                   end)
+      tbind (eval m r a) (fun va => on_bool va (tbind (eval m r b) want_bool) (val (VBool false)))
   | EBin BLOr a b =>
-      bind (eval m r a) (fun va => match va with
-                                   | VBool true => Val (VBool true)
-                                   | VBool false => bind (eval m r b) (fun vb => match vb with VBool _ => Val vb | _ => Stuck end)
-                                   | _ => Stuck
-                                   end)
-  | EBin o a b => bind (eval m r a) (fun va => bind (eval m r b) (fun vb => eval_bin m o va vb))
-  | ECast e1 t => bind (eval m r e1) (fun v => cast v t)
-  | EIf c a b =>
-      bind (eval m r c) (fun vc => match vc with
-                                   | VBool true => eval m r a
-                                   | VBool false => eval m r b
-                                   | _ => Stuck
-                                   end)
+      tbind (eval m r a) (fun va => on_bool va (val (VBool true)) (tbind (eval m r b) want_bool))
+  | EBin o a b => tbind (eval m r a) (fun va => tbind (eval m r b) (fun vb => eval_bin m o va vb))
+  | ECast e1 t => tbind (eval m r e1) (fun v => cast v t)
+  | EIf c a b => tbind (eval m r c) (fun vc => on_bool vc (eval m r a) (eval m r b))
   | ELet x t e1 body =>
-      bind (eval m r e1) (fun v =>
+      tbind (eval m r e1) (fun v =>
         match t with
-        | Some t' => bind (ascribe t' v) (fun v' => eval m ((x, v') :: r) body)
+        | Some t' => tbind (ascribe t' v) (fun v' => eval m ((x, v') :: r) body)
         | None => eval m ((x, v) :: r) body
         end)
   | EAssert dbg c rest =>
       match dbg, m with
       | true, Release => eval m r rest
-      | _, _ => bind (eval m r c) (fun vc => match vc with
-                                             | VBool true => eval m r rest
-                                             | VBool false => Panic PAssert
-                                             | _ => Stuck
-                                             end)
+      | _, _ => tbind (eval m r c) (fun vc => on_bool vc (eval m r rest) (Leaf (Panic PAssert)))
       end
-  | ERet e1 => bind (eval m r e1) (fun v => Ret v)
-  | EScope e1 => match eval m r e1 with Ret v => Val v | other => other end
-  | EMeth0 f e1 => bind (eval m r e1) (eval_meth0 f)
-  | EMeth1 f a b => bind (eval m r a) (fun va => bind (eval m r b) (fun vb => eval_meth1 m f va vb))
-  | ESome e1 => bind (eval m r e1) (fun v => Val (VSome v))
-  | ENone => Val VNone
-  | EOk e1 => bind (eval m r e1) (fun v => Val (VOk v))
-  | EErr e1 => bind (eval m r e1) (fun v => Val (VErr v))
+  | ERet e1 => tbind (eval m r e1) (fun v => Leaf (Ret v))
+  | EScope e1 => scope (eval m r e1)
+  | EMeth0 f e1 => tbind (eval m r e1) (eval_meth0 f)
+  | EMeth1 f a b => tbind (eval m r a) (fun va => tbind (eval m r b) (fun vb => eval_meth1 m f va vb))
+  | ESome e1 => tbind (eval m r e1) (fun v => val (VSome v))
+  | ENone => val VNone
+  | EOk e1 => tbind (eval m r e1) (fun v => val (VOk v))
+  | EErr e1 => tbind (eval m r e1) (fun v => val (VErr v))
   | EOptMap e1 x body =>
-      bind (eval m r e1) (fun v => match v with
-                                   | VSome w => bind (eval m ((x, w) :: r) body) (fun u => Val (VSome u))
-                                   | VNone => Val VNone
-                                   | _ => Stuck
-                                   end)
+      tbind (eval m r e1) (fun v => match v with
+                                    | VSome w => tbind (eval m ((x, w) :: r) body) (fun u => val (VSome u))
+                                    | VNone => val VNone
+                                    | _ => stuck
+                                    end)
   | EOkOr e1 err =>
-      bind (eval m r e1) (fun v => match v with
-                                   | VSome w => Val (VOk w)
-                                   | VNone => bind (eval m r err) (fun u => Val (VErr u))
-                                   | _ => Stuck
-                                   end)
+      tbind (eval m r e1) (fun v => match v with
+                                    | VSome w => val (VOk w)
+                                    | VNone => tbind (eval m r err) (fun u => val (VErr u))
+                                    | _ => stuck
+                                    end)
   | ETry e1 =>
-      bind (eval m r e1) (fun v => match v with
-                                   | VSome w => Val w | VOk w => Val w
-                                   | VNone => Ret VNone | VErr u => Ret (VErr u)
-                                   | _ => Stuck
-                                   end)
+      tbind (eval m r e1) (fun v => match v with
+                                    | VSome w => val w | VOk w => val w
+                                    | VNone => Leaf (Ret VNone) | VErr u => Leaf (Ret (VErr u))
+                                    | _ => stuck
+                                    end)
   end.
 
 (* arguments meet the declared parameter types (tags only; ranges are hypotheses of the theorems) *)
@@ -380,11 +395,27 @@ Fixpoint bind_args (ps : list (string * pty)) (args : list value) (acc : env) : 
   | _, _ => None
   end.
 
-Definition eval_fn (m : mode) (f : rfun) (args : list value) : outcome :=
-  match bind_args (params f) args [] with
-  | Some r => match eval m r (body f) with Ret v => Val v | other => other end
-  | None => Stuck
+(* the function's result: literals still untyped get the declared result type *)
+Fixpoint fix_ret (rt : option ity) (v : value) : option value :=
+  match v with
+  | VLit z => match rt with Some t => option_map (VInt t) (lit_to t z) | None => None end
+  | VOk w => option_map VOk (fix_ret rt w)
+  | VSome w => option_map VSome (fix_ret rt w)
+  | _ => Some v
   end.
+Fixpoint finish (rt : option ity) (t : tree) : tree :=
+  match t with
+  | Leaf (Val v) | Leaf (Ret v) => match fix_ret rt v with Some v' => Leaf (Val v') | None => stuck end
+  | Leaf o => Leaf o
+  | Br c a b => Br c (finish rt a) (finish rt b)
+  end.
+
+Definition eval_tree (m : mode) (f : rfun) (args : list value) : tree :=
+  match bind_args (params f) args [] with
+  | Some r => finish (ret f) (eval m r (body f))
+  | None => stuck
+  end.
+Definition eval_fn (m : mode) (f : rfun) (args : list value) : outcome := interp (eval_tree m f args).
 
 (* ------------------------------------------------------------------ sanity lemmas *)
 Lemma modulus_pow : forall t, modulus t = 2 ^ width t.
@@ -394,50 +425,59 @@ Proof. destruct t; reflexivity. Qed.
 Lemma modulus_pos : forall t, 0 < modulus t.
 Proof. destruct t; reflexivity. Qed.
 
-Lemma eval_lit : forall m r z, eval m r (ELit z) = Val (VLit z).
+Lemma interp_tbind : forall t k,
+  interp (tbind t k) = match interp t with Val v => interp (k v) | o => o end.
+Proof.
+  induction t as [o | c a IHa b IHb]; intros k; cbn [tbind interp].
+  - destruct o; reflexivity.
+  - destruct c; auto.
+Qed.
+
+Lemma eval_lit : forall m r z, interp (eval m r (ELit z)) = Val (VLit z).
 Proof. reflexivity. Qed.
 
-Lemma eval_litT_u8 : forall m r, eval m r (ELitT U8 255) = Val (VInt U8 255).
+Lemma eval_litT_u8 : forall m r, interp (eval m r (ELitT U8 255)) = Val (VInt U8 255).
 Proof. reflexivity. Qed.
 
 (* `x as u8` keeps the low byte of an unsigned value *)
 Lemma eval_cast_u8 : forall m r x n,
-  lookup x r = Some (VInt U64 n) -> eval m r (ECast (EVar x) U8) = Val (VInt U8 (n mod 256)).
+  lookup x r = Some (VInt U64 n) -> interp (eval m r (ECast (EVar x) U8)) = Val (VInt U8 (n mod 256)).
 Proof. intros m r x n H. cbn [eval]. rewrite H. reflexivity. Qed.
 
 (* `x as u64` of an i32 sign-extends *)
-Lemma eval_cast_sext : forall m, eval m [("x"%string, VInt I32 4294967295)] (ECast (EVar "x") U64) = Val (VInt U64 18446744073709551615).
+Lemma eval_cast_sext : forall m,
+  interp (eval m [("x"%string, VInt I32 4294967295)] (ECast (EVar "x") U64)) = Val (VInt U64 18446744073709551615).
 Proof. intros m. vm_compute. reflexivity. Qed.
 
-(* the result of an unsigned + is in range or the evaluation does not produce a value (Debug) *)
+(* unsigned + : in range, or a panic (Debug) / the wrapped value (Release), which is again in range *)
 Lemma arith_u_add_debug : forall t a b,
-  arith_u Debug t BAdd a b = if a + b <? modulus t then Val (VInt t (a + b)) else Panic POverflow.
+  interp (arith_u Debug t BAdd a b) = if a + b <? modulus t then Val (VInt t (a + b)) else Panic POverflow.
 Proof. reflexivity. Qed.
 Lemma arith_u_add_release_in_range : forall t a b n,
-  arith_u Release t BAdd a b = Val (VInt t n) -> n < modulus t.
+  interp (arith_u Release t BAdd a b) = Val (VInt t n) -> n < modulus t.
 Proof.
-  intros t a b n. cbn [arith_u ovf]. destruct (a + b <? modulus t) eqn:E; intros H; inversion H; subst.
+  intros t a b n. cbn [arith_u ovf interp val]. destruct (a + b <? modulus t) eqn:E; intros H; inversion H; subst.
   - apply N.ltb_lt; exact E.
   - apply N.mod_lt. pose proof (modulus_pos t). lia.
 Qed.
 
 (* short-circuit: the right operand of && is not evaluated when the left is false *)
 Lemma eval_land_short : forall m r b,
-  eval m r (EBin BLAnd (EBool false) b) = Val (VBool false).
+  interp (eval m r (EBin BLAnd (EBool false) b)) = Val (VBool false).
 Proof. reflexivity. Qed.
 
 (* `1 << 55` as a u64 constant *)
 Lemma eval_const_shift : forall m r,
-  eval m r (EConst "X" U64 (EBin BShl (ELit 1) (ELit 55))) = Val (VInt U64 36028797018963968).
+  interp (eval m r (EConst "X" U64 (EBin BShl (ELit 1) (ELit 55)))) = Val (VInt U64 36028797018963968).
 Proof. intros. vm_compute. reflexivity. Qed.
 
 (* `!7` meeting usize *)
-Lemma eval_not7 : forall m n, n < modulus Usize ->
-  eval m [("l"%string, VInt Usize n)] (EBin BAnd (EVar "l") (EUn UNot (ELit 7))) = Val (VInt Usize (N.land n 18446744073709551608)).
+Lemma eval_not7 : forall m n,
+  interp (eval m [("l"%string, VInt Usize n)] (EBin BAnd (EVar "l") (EUn UNot (ELit 7)))) = Val (VInt Usize (N.land n 18446744073709551608)).
 Proof. intros. reflexivity. Qed.
 
 (* debug-mode subtraction below zero panics, release wraps *)
 Lemma eval_sub_underflow :
-  eval Debug [] (EBin BSub (ELitT U32 1) (ELitT U32 2)) = Panic POverflow /\
-  eval Release [] (EBin BSub (ELitT U32 1) (ELitT U32 2)) = Val (VInt U32 4294967295).
+  interp (eval Debug [] (EBin BSub (ELitT U32 1) (ELitT U32 2))) = Panic POverflow /\
+  interp (eval Release [] (EBin BSub (ELitT U32 1) (ELitT U32 2))) = Val (VInt U32 4294967295).
 Proof. split; vm_compute; reflexivity. Qed.
